@@ -65,6 +65,18 @@ type finding struct {
 	inputs     map[string]bool
 }
 
+func isDigest(s string) bool {
+	if len(s) != 16 {
+		return false
+	}
+	for _, c := range s {
+		if !(c >= '0' && c <= '9' || c >= 'a' && c <= 'f') {
+			return false
+		}
+	}
+	return true
+}
+
 // InputDigest is the identity of a case in an inputs file.
 func InputDigest(input interface{}) string {
 	raw, err := json.Marshal(input)
@@ -508,8 +520,13 @@ func (c *Ctx) Finish() int {
 		for fi, f := range findings {
 			if f.Property == c.ID && f.Status == "finding" && matchClass(f.Class, v.Class) {
 				if f.InputsFile != "" {
+					// a class that ends in the digest of its input (one class per input, whatever order of
+					// calls or variant of the harness reported it first) is identified by that digest
 					sum := sha256.Sum256(v.Input)
 					d := hex.EncodeToString(sum[:8])
+					if i := strings.LastIndexByte(v.Class, '/'); i >= 0 && isDigest(v.Class[i+1:]) {
+						d = v.Class[i+1:]
+					}
 					dump = append(dump, d)
 					if !f.inputs[d] {
 						continue
